@@ -100,7 +100,17 @@ func opAsCFFWrite(f *sfnt.Font) []any {
 
 func opSubset(f *sfnt.Font) []any {
 	sub := f.Subset(subsetGlyphs(f))
-	return []any{sub}
+	// the subset shares glyph objects with the font: what is written for it must not depend on what was
+	// written for the font (or for other subsets) before, in this process
+	var buf bytes.Buffer
+	_, err := sub.Write(&buf)
+	res := []any{sub, buf.Bytes(), fmt.Sprint(err)}
+	if sub.IsCFF() {
+		var b2 bytes.Buffer
+		err2 := sub.AsCFF().Write(&b2)
+		res = append(res, b2.Bytes(), fmt.Sprint(err2))
+	}
+	return res
 }
 
 func opClone(f *sfnt.Font) []any { return []any{f.Clone()} }
